@@ -41,7 +41,8 @@ def run(pid, tier, seed, replay=None):
         exe = vlib.build_driver("c08_driver", "opt")
         obs = []
         # 8..15: the shapes 0..7 with 49 keys (the header outgrows its block after the data were written); 16: 40 x 359, 49 keys
-        tables = [0, 3, 5, 9, 11, 16] if tier == "quick" else [0, 1, 2, 3, 4, 5, 6, 7, 8, 9, 10, 11, 12, 14, 16]
+        # 17: 2400 x 20 with a first knot vector of seven blocks (errors surface while an extension is being written)
+        tables = [0, 3, 5, 9, 11, 16, 17] if tier == "quick" else [0, 1, 2, 3, 4, 5, 6, 7, 8, 9, 10, 11, 12, 14, 16, 17]
         if os.environ.get("VERIF_C08_TABLES"):          # experiments: an explicit list of catalogue ids
             tables = [int(t) for t in os.environ["VERIF_C08_TABLES"].split(",")]
         nscen = 0
